@@ -608,6 +608,16 @@ def run_check(pid, tier, seed):
         if infra_fail is None and tier != "thorough" and not err and os.environ.get("VERIF_NO_DEEP_SEARCH") != "1":
             e2 = correspondence("thorough")
             tiers_run.append("thorough(search)")
+            # ... and give the property's extra stages (the -race drivers) their thorough budgets
+            if not violations:
+                for stage in cfg.get("stages", []):
+                    sres = stage(pid=pid, tier="thorough", seed=seed, rundir=rundir, res=res, known=known)
+                    for v in sres.get("violations", []):
+                        violations.append((write_replay(pid, v), ""))
+                    for k in sres.get("known_hits", []):
+                        known_hits.setdefault(k["id"], k)
+                    if violations:
+                        break
         if not violations:
             what = []
             if not proof_ok:
